@@ -312,7 +312,14 @@ def get_index_derivatives(expr):
     for c in coord:
         d[c] = 0
 
-    ops = [a for a in preorder_traversal(expr) if isinstance(a, _partial_derivatives)]
+    # only the outer run of physical derivatives, consistently with
+    # get_atom_derivatives: operators below a logical derivative (mixed chain)
+    # belong to the atom
+    ops = []
+    while isinstance(expr, _partial_derivatives):
+        ops.append(expr)
+        expr = expr.args[0]
+
     for i in ops:
 
         if isinstance(i, dx):
@@ -350,7 +357,14 @@ def get_index_logical_derivatives(expr):
     for c in coord:
         d[c] = 0
 
-    ops = [a for a in preorder_traversal(expr) if isinstance(a, _logical_partial_derivatives)]
+    # only the outer run of logical derivatives, consistently with
+    # get_atom_logical_derivatives: operators below a physical derivative
+    # (mixed chain) belong to the atom
+    ops = []
+    while isinstance(expr, _logical_partial_derivatives):
+        ops.append(expr)
+        expr = expr.args[0]
+
     for i in ops:
 
         if isinstance(i, dx1):
